@@ -41,6 +41,7 @@ var harness = &simcore.Harness{
 		"index mode: blocks are (height, begin/end events, txs with DeliverTx results) records published in the order state/execution.go fireEvents uses; no consensus, no stores"},
 	Assumptions: []string{"query-language semantics taken from rpc/openapi /subscribe, docs/app-dev/indexing-transactions.md and the package docs of libs/pubsub/query: AND of conditions, a condition holds if ANY value of the composite key satisfies it, an operand whose type does not fit a value does not match that value",
 		"cases the documentation leaves open (integer operand against a non-integral value, numeric operand against a value that merely contains digits, EXISTS on a key without a dot, two range conditions on one multi-valued key) are accepted either way",
+		"relaxed mode, only while the class lost-foreign-type-mismatch is LISTED in KNOWN_FINDINGS: delivery of a publication on which some live subscription's query has an ill-typed operand is treated as unspecified, and index mode publishes three more blocks after an ill-typed bundle and then ends the run",
 		"every simulator action ends with the pubsub server idle (unbuffered subscriptions are drained by the simulator), so observations are independent of Go map iteration order in a correct server"},
 }
 
@@ -58,10 +59,10 @@ func genConfig(rng *simcore.RNG, env *simcore.Env) simcore.Op {
 		if env.Thorough() {
 			c["nops"] = rng.Range(15, 250)
 		}
-		c["poison"] = rng.Bool(0.6)     // bundles of queries whose operand type does not fit the values published
-		c["mix"] = rng.Bool(0.5)        // untyped "mix.*" attributes
-		c["dotless"] = rng.Bool(0.2)    // EXISTS on a key without a dot
-		c["share"] = rng.Intn(4)        // 0..3: how often a new subscription reuses an existing query string
+		c["poison"] = rng.Bool(0.6)  // bundles of queries whose operand type does not fit the values published
+		c["mix"] = rng.Bool(0.5)     // untyped "mix.*" attributes
+		c["dotless"] = rng.Bool(0.2) // EXISTS on a key without a dot
+		c["share"] = rng.Intn(4)     // 0..3: how often a new subscription reuses an existing query string
 		c["burst"] = []int{1, 2, 4, 8}[rng.Intn(4)]
 		c["stop"] = rng.Bool(0.3)
 	} else {
@@ -72,9 +73,9 @@ func genConfig(rng *simcore.RNG, env *simcore.Env) simcore.Op {
 		}
 		c["maxtx"] = []int{0, 1, 3, 6}[rng.Intn(4)]
 		c["canaries"] = []int{0, 16, 16}[rng.Intn(3)]
-		c["foreign"] = rng.Bool(0.5)   // other well-behaved subscribers on the bus
-		c["poison"] = rng.Bool(0.4)    // other subscribers with ill-typed queries
-		c["noindex"] = rng.Bool(0.5)   // some attributes carry Index=false
+		c["foreign"] = rng.Bool(0.5) // other well-behaved subscribers on the bus
+		c["poison"] = rng.Bool(0.4)  // other subscribers with ill-typed queries
+		c["noindex"] = rng.Bool(0.5) // some attributes carry Index=false
 		// query / value features where implementation and plain reading are suspected to differ
 		c["f_hash_and"] = rng.Bool(0.15)
 		c["f_dup_bounds"] = rng.Bool(0.15)
